@@ -364,7 +364,10 @@ def check_fit_guards(ctx, replay, out):
     st = replay["real"]
     if g.get("det") and g.get("wf") and not g.get("partial"):
         ctx.count("fit guards: no-raise guard holds")
-        if st not in ("ok", "hang"):
+        from . import schemas
+        # the conjecture "these guards exclude every raise" is about the kernel-checked family; on the further strict variants
+        # (schemas.strict()) a raise is reported by the totality oracle itself (see the finding C11-find-fittable-shallow-open)
+        if st not in ("ok", "hang") and replay.get("schema") in [s_.name for s_ in schemas.family()]:
             ctx.mismatch("fitGuards:guard-true-but-raises", replay, st, g)
     if g.get("det") and g.get("term"):
         ctx.count("fit guards: termination guard holds")
